@@ -42,6 +42,9 @@ pub struct VerifProbe {
     pub key_phase: bool,
     pub idle_timeout: Option<Duration>,
     pub app_limited: bool,
+    /// Which timers are armed, indexed like `Timer::VALUES`: LossDetection, Idle, Close,
+    /// KeyDiscard, PathValidation, KeepAlive, Pacing, PushNewCid, MaxAckDelay
+    pub timers_armed: Vec<&'static str>,
     pub streams: VerifStreamsProbe,
 }
 
